@@ -173,6 +173,7 @@ METHODS = {
     "E.x2": (E, "x", "V", ()),                         # external overload: same class and name, other descriptor
     "OA.clone": ("[" + OBJ, "clone", OBJ, ()),         # array receiver, element class external
     "BA.clone": ("[" + B, "clone", OBJ, ()),           # array receiver whose element class DEFINES clone()
+    "OAA.clone": ("[[" + OBJ, "clone", OBJ, ()),       # array-of-arrays receiver (two dimensions)
 }
 FIELDS = {
     "A.f": (A, "f", "I"),
@@ -192,9 +193,16 @@ FIELD_OPS_ALL = [p + s for p in ("iget", "iput", "sget", "sput")
 FIELD_OPS = ["iget", "iput-wide", "sget-object", "sput-boolean", "iget-byte", "iput-char", "sget-short", "sput"]
 STRINGS = ["s1", "s2", "LB;", ""]                      # "LB;" shares its pool entry with a type descriptor; "" is falsy
 STRING_OPS = ["const-string", "const-string/jumbo"]
-TYPES = [B, A, E, "[" + B, "[I"]
+# type operands: {internal B, own class A, external E} x array dimension {0, 1, 2, 3}, and arrays of primitives
+TYPES = [B, A, E, "[" + B, "[I"]                       # kept for documentation of the original alphabet
+CLASS_OPERANDS = [B, A, E]
+CONST_CLASS_TYPES = ["[" * d + c for d in (0, 1, 2, 3) for c in CLASS_OPERANDS] + ["[I", "[[I"]
+NEW_INSTANCE_TYPES = ["[" * d + c for d in (0, 1, 2) for c in CLASS_OPERANDS] + ["[I"]
 TYPE_OPS = ["new-instance", "const-class"]
-NOISE = [("check-cast", B), ("instance-of", B), ("new-array", "[" + B)]   # type references that are NOT class-usage xrefs
+MAX_DIM_TYPE = "[" * 255 + B                           # the deepest legal array type (extended singles only)
+# type references that are NOT class-usage xrefs, in several array dimensions
+NOISE = [("check-cast", B), ("instance-of", B), ("new-array", "[" + B), ("check-cast", "[[" + B), ("instance-of", "[[" + E),
+         ("new-array", "[[" + B), ("filled-new-array", "[" + B)]
 
 SEQ_METHOD_TARGETS = ["B.t", "B.u", "A.m", "E.x", "E.x2", "OA.clone", "BA.clone"]
 
@@ -210,9 +218,11 @@ def _alphabet(method_targets, field_ops):
     for op in STRING_OPS:
         for s in STRINGS:
             al.append((op, s))
-    for op in TYPE_OPS:
-        for t in TYPES:
-            al.append((op, t))
+    al += [("new-instance", t) for t in NEW_INSTANCE_TYPES] + [("const-class", t) for t in CONST_CLASS_TYPES]
+    if "OAA.clone" not in method_targets:
+        al += [("invoke-virtual", METHODS["OAA.clone"]), ("invoke-virtual/range", METHODS["OAA.clone"])]
+    else:
+        al += [("const-class", MAX_DIM_TYPE), ("new-instance", "[[[" + B)]
     return al + list(NOISE) + [(PAYLOAD, "fill-array-data"), (PAYLOAD, "packed-switch")]
 
 
